@@ -55,20 +55,20 @@ def impl_design(case):
             h.netlist(pkg, s, fmt="spice")
             out["spice"] = observe.spice_partition(s.getvalue(), pj, out["top"])
         except Exception as ex:  # noqa
-            out["spice_error"] = f"{type(ex).__name__}: {str(ex)[-200:]}"
+            out["spice_error"] = common.errstr(ex)
     if case.get("accept", False):
         acc = {}
         try:
             h.from_proto(pkg)
             acc["from_proto"] = "ok"
         except Exception as ex:  # noqa
-            acc["from_proto"] = f"{type(ex).__name__}: {str(ex)[-160:]}"
+            acc["from_proto"] = common.errstr(ex)
         for fmt in ("spice", "spectre"):
             try:
                 h.netlist(pkg, io.StringIO(), fmt=fmt)
                 acc[fmt] = "ok"
             except Exception as ex:  # noqa
-                acc[fmt] = f"{type(ex).__name__}: {str(ex)[-160:]}"
+                acc[fmt] = common.errstr(ex)
         out["accept"] = acc
     if case.get("roundtrip", False):
         try:
@@ -79,7 +79,11 @@ def impl_design(case):
                 node = getattr(node, part)
             top2 = getattr(node, out["top"].split(".")[-1])
             pkg2 = h.to_proto(top2)
-            out["roundtrip"] = "equal" if pkg2 == pkg else {"differs": observe.pkg_json(pkg2)}
+            if pkg2 == pkg:
+                out["roundtrip"] = "equal"
+            else:
+                c11 = __import__("props.c11", fromlist=["x"])
+                out["roundtrip"] = {"differs": c11.first_difference(observe.pkg_json_full(pkg), observe.pkg_json_full(pkg2))}
         except Exception as ex:  # noqa
             out["roundtrip"] = {"error": f"{type(ex).__name__}: {str(ex)[-200:]}"}
     return out
